@@ -115,6 +115,15 @@ where
             });
         }
 
+        // Likewise for a deleted-slot index beyond the restored length.
+        if let Some(&hole) = prev_holes.last().filter(|&&h| h >= restored_len) {
+            return Err(Error::IndexTooHigh {
+                index: hole,
+                len: restored_len,
+                name: self.base.name().to_string(),
+            });
+        }
+
         // The record is a delta against the last committed state: start from that
         // state's overlay, not from updates or deletions made since. Otherwise an
         // uncommitted update leaks into the restored state, and an uncommitted
